@@ -13,6 +13,7 @@ import (
 	"strings"
 	"sync"
 	"syscall"
+	"time"
 
 	"github.com/cosmos/cosmos-proto/zzverif/glue"
 )
@@ -243,6 +244,7 @@ func main() {
 		os.Exit(2)
 	}
 	openCaseFile()
+	go memoryGuard()
 	f(rep)
 	b, err := json.MarshalIndent(rep, "", " ")
 	if err != nil {
@@ -313,4 +315,33 @@ func markProp(prop string) {
 	var b [8]byte
 	copy(b[:], prop)
 	copy(caseMem[:8], b[:])
+}
+
+// memoryGuard ends the process when its resident set passes a limit far above anything the workloads need: a subject
+// whose memory use explodes (doubling buffers) would otherwise take the whole machine down before anything is
+// reported.  The driver sees the "fatal error" line and attributes it to the case named in the case file.
+func memoryGuard() {
+	limit := int64(8) << 30
+	if v := os.Getenv("VERIF_VH_RSS_LIMIT_GB"); v != "" {
+		if n, err := strconv.Atoi(v); err == nil && n > 0 {
+			limit = int64(n) << 30
+		}
+	}
+	page := int64(os.Getpagesize())
+	for {
+		time.Sleep(40 * time.Millisecond)
+		b, err := os.ReadFile("/proc/self/statm")
+		if err != nil {
+			return
+		}
+		fs := strings.Fields(string(b))
+		if len(fs) < 2 {
+			return
+		}
+		pages, _ := strconv.ParseInt(fs[1], 10, 64)
+		if pages*page > limit {
+			fmt.Fprintf(os.Stderr, "fatal error: resident memory of the harness process grew beyond %d GiB (memory explosion in the code under test)\n", limit>>30)
+			os.Exit(2)
+		}
+	}
 }
